@@ -141,7 +141,8 @@ class World:
 
     def data(self):
         return {'op': 'sched', 'n': self.n, 'inputs': list(self.inputs), 'deps': {str(k): v for k, v in self.deps.items()},
-                'events': list(self.events), 'failed': list(self.failed), 'mode': self.mode}
+                'events': list(self.events), 'failed': list(self.failed), 'mode': self.mode, 'recursive': getattr(self, 'recursive', False),
+                'subdir': self.subdir}
 
 
 def mk_config(m, inputs, mode, recursive=False, threads=4):
@@ -202,6 +203,7 @@ def requested_files(w):
 def h_sched(m, ctx, n, inputs, acyclic_only=False, allow_self=True, fail_budget=0, mode='Build', recursive=False, subdir=False,
             max_deps=None, check_panics=False):
     w = World(m, ctx, n, inputs, acyclic_only, allow_self, fail_budget, mode=mode, subdir=subdir, max_deps=max_deps)
+    w.recursive = recursive
     it, env, r = run_coordinator(m, ctx, w, recursive)
     ok_ = (r.idx == 0)
     data = w.data()
@@ -402,12 +404,15 @@ def replay(native, v):
         for threads in (4, 1):
             root = tempfile.mkdtemp(prefix='replay-sched-', dir=build.scratch_dir())
             os.makedirs(os.path.join(root, 'sub'))
+            if d.get('subdir'):
+                open(os.path.join(root, 'sub', 'G0.txtpp'), 'w').write('g\n')
             for i in range(n):
                 open(os.path.join(root, 'F%d.txtpp' % i), 'w').write(content(i, plan))
                 open(os.path.join(root, 'F%d' % i), 'w').write('old F%d\n' % i)
             t0 = time.time()
             try:
-                r = subprocess.run([cli, '-q', '-j', str(threads)] + list(inputs), cwd=root, capture_output=True, timeout=30)
+                rflag = ['-r'] if d.get('recursive') else []
+                r = subprocess.run([cli, '-q', '-j', str(threads)] + rflag + list(inputs), cwd=root, capture_output=True, timeout=30)
                 rc = r.returncode
             except subprocess.TimeoutExpired:
                 rc = 'HANG'
